@@ -420,6 +420,7 @@ func check(prop string, args []string) int {
 	}
 	var deaths []death
 	watchdogs := 0
+	killedWorkers := 0
 	var wg sync.WaitGroup
 	for w := 0; w < workers; w++ {
 		wg.Add(1)
@@ -457,7 +458,13 @@ func check(prop string, args []string) int {
 				if res.watchdog {
 					watchdogs++
 				}
-				if res.died && !res.watchdog {
+				killed := res.died && !res.watchdog && !strings.Contains(res.stderr, "panic:") && !strings.Contains(res.stderr, "fatal error:") && !strings.Contains(res.stderr, "DATA RACE")
+				if killed {
+					// ended by a signal (e.g. the kernel's OOM killer) without any report of
+					// its own: an incident of the environment, not a verdict on the run
+					killedWorkers++
+				}
+				if res.died && !res.watchdog && !killed {
 					deaths = append(deaths, death{res.current, res.stderr})
 					var cp plan.Plan
 					if json.Unmarshal(res.current, &cp) == nil && cp.Run > last {
@@ -476,6 +483,10 @@ func check(prop string, args []string) int {
 	}
 	wg.Wait()
 	sort.Slice(all, func(i, j int) bool { return all[i].Run < all[j].Run })
+	if killedWorkers > 3 {
+		fmt.Fprintf(os.Stderr, "vcheck: %d workers were killed from outside (no panic, no fatal error in their output)\n", killedWorkers)
+		return 2
+	}
 	if watchdogs > 0 {
 		fmt.Fprintf(os.Stderr, "vcheck: %d worker(s) were killed by the watchdog (no progress): the code under test spins or blocks outside the simulator's seams\n", watchdogs)
 		return 2
